@@ -214,3 +214,151 @@ func (c *Canon) BoolResult(fd *ast.FuncDecl, target string) (*BExpr, bool) {
 	walk(fd.Body.List, nil)
 	return result, ok
 }
+
+// ParseBool parses a canonical condition string back into a formula. Integer comparisons
+// are oriented so that only `>=` and `==` atoms remain: (x > y) is !(y >= x); (x != y) is
+// !(x == y) (with operands sorted as the canonicaliser does).
+func ParseBool(s string) *BExpr {
+	s = trimSpace(s)
+	if len(s) > 0 && s[0] == '!' {
+		return BNot(ParseBool(s[1:]))
+	}
+	if len(s) >= 2 && s[0] == '(' && s[len(s)-1] == ')' && balanced(s[1:len(s)-1]) {
+		in := s[1 : len(s)-1]
+		// top-level || has lowest precedence, then &&
+		for _, op := range []string{" || ", " && "} {
+			if parts := splitTop(in, op); len(parts) > 1 {
+				var acc *BExpr
+				for _, p := range parts {
+					e := ParseBool(p)
+					if acc == nil {
+						acc = e
+					} else if op == " || " {
+						acc = BOr(acc, e)
+					} else {
+						acc = BAnd(acc, e)
+					}
+				}
+				return acc
+			}
+		}
+		for _, op := range []string{" >= ", " > ", " == ", " != "} {
+			if parts := splitTop(in, op); len(parts) == 2 {
+				l, r := parts[0], parts[1]
+				switch op {
+				case " >= ":
+					return BAtom("(" + l + " >= " + r + ")")
+				case " > ":
+					return BNot(BAtom("(" + r + " >= " + l + ")"))
+				case " == ":
+					if r < l {
+						l, r = r, l
+					}
+					return BAtom("(" + l + " == " + r + ")")
+				case " != ":
+					if r < l {
+						l, r = r, l
+					}
+					return BNot(BAtom("(" + l + " == " + r + ")"))
+				}
+			}
+		}
+	}
+	if s == "true" {
+		return BConst(true)
+	}
+	if s == "false" {
+		return BConst(false)
+	}
+	return BAtom(s)
+}
+
+func trimSpace(s string) string {
+	for len(s) > 0 && s[0] == ' ' {
+		s = s[1:]
+	}
+	for len(s) > 0 && s[len(s)-1] == ' ' {
+		s = s[:len(s)-1]
+	}
+	return s
+}
+
+func splitTop(s, op string) []string {
+	var parts []string
+	d := 0
+	last := 0
+	for i := 0; i < len(s); i++ {
+		switch s[i] {
+		case '(', '[', '{':
+			d++
+		case ')', ']', '}':
+			d--
+		case '"':
+			// skip string literal
+			j := i + 1
+			for j < len(s) && s[j] != '"' {
+				if s[j] == '\\' {
+					j++
+				}
+				j++
+			}
+			i = j
+			continue
+		}
+		if d == 0 && i+len(op) <= len(s) && s[i:i+len(op)] == op {
+			parts = append(parts, s[last:i])
+			last = i + len(op)
+			i += len(op) - 1
+		}
+	}
+	parts = append(parts, s[last:])
+	return parts
+}
+
+// Implies decides (by truth table over all atoms, treated as independent) whether the
+// conjunction of premises implies goal.
+func Implies(premises []*BExpr, goal *BExpr) bool {
+	set := map[string]bool{}
+	for _, p := range premises {
+		for _, a := range p.Atoms() {
+			set[a] = true
+		}
+	}
+	for _, a := range goal.Atoms() {
+		set[a] = true
+	}
+	var atoms []string
+	for a := range set {
+		atoms = append(atoms, a)
+	}
+	sort.Strings(atoms)
+	if len(atoms) > 18 {
+		return false
+	}
+	for m := 0; m < 1<<len(atoms); m++ {
+		env := map[string]bool{}
+		for i, a := range atoms {
+			env[a] = m&(1<<i) != 0
+		}
+		all := true
+		for _, p := range premises {
+			if !p.Eval(env) {
+				all = false
+				break
+			}
+		}
+		if all && !goal.Eval(env) {
+			return false
+		}
+	}
+	return true
+}
+
+// PathFormulas parses the guards of a path.
+func PathFormulas(p Path) []*BExpr {
+	var out []*BExpr
+	for _, g := range p.Guards {
+		out = append(out, ParseBool(g))
+	}
+	return out
+}
